@@ -73,13 +73,13 @@ def run(ctx):
         for nconv in (1, 2):
             for maxit in (21, 31, 35):
                 add(0, gen.VARIANTS[1], maxit, nconv, sc + [sc[-1]] * 4, 'special')
-    res = ctx.component('K-CTRL', cases)
+    res = ctx.component('K-CTRL', cases, keys={'status', 'rep'})
     # real (unscripted) trajectories reaching CONVERGED: nconv small, long maxit
     real_cases = []
     for k in range(ctx.budget(40, 600)):
         line, meta = gen.gen_e2e(rng.fork('real%d' % k), 100000 + k, r_max=2, nconv=rng.rint(1, 3), maxit=rng.rint(30, 400 if ctx.tier == 'thorough' else 150), trace=1)
         real_cases.append(line)
-    res2 = ctx.component('K-E2E', real_cases)
+    res2 = ctx.component('K-E2E(real trajectories, implementation only)', real_cases, model=False)
     # ---- oracle: spec_stop (python, from the property text) vs the implementation's report
     n_eval = 0
     nontrivial = set()
